@@ -345,9 +345,10 @@ class RadiDict:
         elif mismatch:
             return
 
-        if hooks_only and node[DATA] is not None:
+        if hooks_only:
             node[HOOKS] = None
-            return
+            if node[DATA] is not None:
+                return
 
         stack.reverse()
         assert node is stack[0]
